@@ -339,7 +339,7 @@ func must(elems []any, nonTerminals []lex.Token, defaultField string) ([]any, []
 	}
 
 	// we consumed 1 terminal, the +
-	return []any{expr.MUST(rest)}, drop(nonTerminals, 1), true
+	return []any{expr.MUST(wrapLiteral(rest, defaultField))}, drop(nonTerminals, 1), true
 }
 
 func mustNot(elems []any, nonTerminals []lex.Token, defaultField string) ([]any, []lex.Token, bool) {
@@ -357,7 +357,7 @@ func mustNot(elems []any, nonTerminals []lex.Token, defaultField string) ([]any,
 		return elems, nonTerminals, false
 	}
 	// we consumed one terminal, the -
-	return []any{expr.MUSTNOT(rest)}, drop(nonTerminals, 1), true
+	return []any{expr.MUSTNOT(wrapLiteral(rest, defaultField))}, drop(nonTerminals, 1), true
 }
 
 func fuzzy(elems []any, nonTerminals []lex.Token, defaultField string) ([]any, []lex.Token, bool) {
@@ -374,7 +374,7 @@ func fuzzy(elems []any, nonTerminals []lex.Token, defaultField string) ([]any, [
 		}
 
 		// we consumed one terminal, the ~
-		return []any{expr.FUZZY(rest, 1)}, drop(nonTerminals, 1), true
+		return []any{expr.FUZZY(wrapLiteral(rest, defaultField), 1)}, drop(nonTerminals, 1), true
 	}
 
 	if len(elems) != 3 {
@@ -406,7 +406,7 @@ func fuzzy(elems []any, nonTerminals []lex.Token, defaultField string) ([]any, [
 	}
 
 	// we consumed one terminal, the ~
-	return []any{expr.FUZZY(rest, idistance)}, drop(nonTerminals, 1), true
+	return []any{expr.FUZZY(wrapLiteral(rest, defaultField), idistance)}, drop(nonTerminals, 1), true
 }
 
 func boost(elems []any, nonTerminals []lex.Token, defaultField string) ([]any, []lex.Token, bool) {
@@ -423,7 +423,7 @@ func boost(elems []any, nonTerminals []lex.Token, defaultField string) ([]any, [
 		}
 
 		// we consumed one terminal, the ^
-		return []any{expr.BOOST(rest, 1.0)}, drop(nonTerminals, 1), true
+		return []any{expr.BOOST(wrapLiteral(rest, defaultField), 1.0)}, drop(nonTerminals, 1), true
 	}
 
 	if len(elems) != 3 {
@@ -457,7 +457,7 @@ func boost(elems []any, nonTerminals []lex.Token, defaultField string) ([]any, [
 	}
 
 	// we consumed one terminal, the ^
-	return []any{expr.BOOST(rest, fpower)}, drop(nonTerminals, 1), true
+	return []any{expr.BOOST(wrapLiteral(rest, defaultField), fpower)}, drop(nonTerminals, 1), true
 }
 
 func rangeop(elems []any, nonTerminals []lex.Token, defaultField string) ([]any, []lex.Token, bool) {
@@ -529,7 +529,7 @@ func toPositiveFloat(in string) (f float64, err error) {
 // we need this because we want to support lucene expressions like a:b AND "c" which needs a default
 // field to compare "c" against to be valid.
 func wrapLiteral(lit *expr.Expression, field string) *expr.Expression {
-	if lit.Op == expr.Literal && field != "" {
+	if (lit.Op == expr.Literal || lit.Op == expr.Wild || lit.Op == expr.Regexp) && field != "" {
 		return expr.Eq(expr.Column(field), lit)
 	}
 	return lit
